@@ -37,6 +37,20 @@ func (r *abort2) StoreBroadcastMessage(msg round.Message) error {
 		return round.ErrInvalidContent
 	}
 
+	if body.YHat == nil || body.YHatProof == nil || body.KProof == nil || body.KProof.Plaintext == nil {
+		return round.ErrNilFields
+	}
+	for _, chiProof := range body.ChiProofs {
+		if chiProof == nil || chiProof.Plaintext == nil {
+			return round.ErrNilFields
+		}
+	}
+	for _, id := range r.PartyIDs() {
+		if _, ok := body.ChiProofs[id]; !ok && id != from {
+			return round.ErrNilFields
+		}
+	}
+
 	alphas := make(map[party.ID]curve.Scalar, len(body.ChiProofs))
 	for id, chiProof := range body.ChiProofs {
 		alphas[id] = r.Group().NewScalar().SetNat(chiProof.Plaintext.Mod(r.Group().Order()))
